@@ -202,3 +202,11 @@ def c06(F, R, tier):
 def c16(F, R, tier):
     import c16 as mod
     mod.check(F, R)
+
+
+@prop("C03",
+      technique="static: stage-order dominance on MIR, error-propagation discipline on typed HIR, type-level infallibility of bound inference, arm-shape rule for detected contradictions",
+      explanation="THIN CLAIM (pipeline shape only). Decides (D-STAGES) in RoocSolver::solve_with_data_using the calls create_type_checker -> transform -> Linearizer::linearize -> solver callback each dominate the next, the solver receives the linearised model, and in lib.rs, the pipes and the builder every Result of a stage call (parse, type check, transform, linearize, standardise, tableau, solver entries) is propagated with `?`/an Err arm and never discarded (.ok(), unwrap_or, let _, wrapped in Ok); (T-CONTRADICTION) BoundsAnalyzer::analyze/analyze_with_options/propagate/apply_to_domain do not return Result and no function of bounds.rs does; a constraint normalised to a contradiction and a constant assertion of the wrong truth value emit the row 0 = 1 and continue; an empty rounded integer range keeps the declared domain; (EARLY-OK) no public solver entry returns Ok without a back-end call unless it consulted the rows. NOT decided: everything semantic -- that returned values satisfy the text, that the objective is optimal, that infeasible texts get the infeasible verdict. Static analysis contributes least here; see C01, C02, C04, C05, C09 for the tables this property leans on.")
+def c03(F, R, tier):
+    import c03 as mod
+    mod.check(F, R)
